@@ -422,7 +422,18 @@ def run(case, ctx):
                 ctx.count("files_with_undecodable_bytes")
             with open(fn, "wb") as f:
                 f.write(data)
-            r = guarded(ctx, "Gfa.from_file", nb, gfapy.Gfa.from_file, fn, **kw)
+            if case["seed"] % 3 == 0:
+                # read_file with progress logging (the file is read twice: once to count its lines)
+                def read_with_progress():
+                    g_ = gfapy.Gfa(**kw)
+                    with open(os.devnull, "w") as sink:
+                        g_.enable_progress_logging(part=0.5, channel=sink)
+                        g_.read_file(fn)
+                    return g_
+                r = guarded(ctx, "Gfa.read_file (progress logging)", nb, read_with_progress)
+                ctx.count("files_read_with_progress_logging")
+            else:
+                r = guarded(ctx, "Gfa.from_file", nb, gfapy.Gfa.from_file, fn, **kw)
         else:
             r = guarded(ctx, "Gfa()", nb, gfapy.Gfa, **kw)
             if r is not None and r.ok:
